@@ -22,7 +22,8 @@
 extern "C" {
 unsigned vp_cfg0(); unsigned vp_cfg1(); unsigned vp_cfg2(); unsigned vp_cfg3();
 void vp_fresh_bytes(QByteArray *out, unsigned minlen, unsigned maxlen);
-void vp_fresh_ascii(QString *out, unsigned len);           // exactly len units in 0x01..0x7f
+void vp_fresh_text(QString *out, unsigned len);            // exactly len units of the instance's shape (cdef VP_U8PAT; default: ASCII 0x01..0x7f)
+unsigned vp_text_bytes(unsigned len);                      // UTF-8 byte length of such a string (a constant of the instance)
 void vp_set_byte(QByteArray *ba, unsigned i, unsigned char v);
 unsigned char vp_byte_at(const QByteArray *ba, unsigned i);
 bool vp_bytes_same(const QByteArray *a, const QByteArray *b);
@@ -36,7 +37,7 @@ void vp_fake_transport(void *storage, const QXmppJingleCandidate *local);
 extern "C" unsigned vp_never();
 static void keepEncode() { if (vp_never()) { QXmppStunMessage m; m.encode(QByteArray(), false); } }
 static QByteArray freshBytes(unsigned minlen, unsigned maxlen) { QByteArray b; vp_fresh_bytes(&b, minlen, maxlen); return b; }
-static QString freshAscii(unsigned len) { QString s; vp_fresh_ascii(&s, len); return s; }
+static QString freshText(unsigned len) { QString s; vp_fresh_text(&s, len); return s; }
 static unsigned u8(const QByteArray &b, unsigned i) { return vp_byte_at(&b, i); }
 static unsigned be16(const QByteArray &b, unsigned i) { return (u8(b, i) << 8) | u8(b, i + 1); }
 static unsigned be32(const QByteArray &b, unsigned i) { return (be16(b, i) << 16) | be16(b, i + 2); }
@@ -80,7 +81,7 @@ extern "C" void h_rt()
         m.xorMappedHost = a[0]; m.xorMappedPort = 0x2113; m.xorPeerHost = a[1]; m.xorPeerPort = 0x0100;
         if (len) { vp_sym_addr6(&a[2]); m.xorRelayedHost = a[2]; m.xorRelayedPort = 0x7fff; }
     } else if (grp == G_STR) {
-        for (auto &x : s) x = freshAscii(len);
+        for (auto &x : s) x = freshText(len);
         m.setRealm(s[0]); m.setSoftware(s[1]); m.setUsername(s[2]);
     } else if (grp == G_BYTES) {
         d[0] = freshBytes(len, len); d[1] = freshBytes(len, len); d[2] = freshBytes(8, 8); d[3] = freshBytes(8, 8);
@@ -91,7 +92,7 @@ extern "C" void h_rt()
         // the code is a per-instance constant (errorCode == 0 means "absent" to encode and would fork the layout);
         // symbolic codes are covered by h_enc_err / h_dec_err
         static const int codes[] = { 300, 401, 438, 487, 500, 699, 420, 403, 599 };
-        m.errorCode = codes[len]; s[0] = freshAscii(len); m.errorPhrase = s[0];
+        m.errorCode = codes[len]; s[0] = freshText(len); m.errorPhrase = s[0];
     }
     const QByteArray e = m.encode(key, fp != 0);
 
@@ -100,6 +101,15 @@ extern "C" void h_rt()
     vp_assert(n >= 20 && n % 4 == 0, "C14 encoded size is a multiple of 4");
     vp_assert(be16(e, 2) == n - 20, "C14 header length field = body length");
     vp_assert(be16(e, 0) == m.type() && be32(e, 4) == m.cookie() && sameBytesAt(e, 8, m.id()), "C14 header carries type, cookie, id");
+    if (grp == G_STR) {      // every attribute starts on a 32-bit boundary: REALM, SOFTWARE, USERNAME at the offsets the UTF-8 BYTE length implies
+        const unsigned bytes = vp_text_bytes(len), step = 4 + ((bytes + 3) & ~3u);
+        vp_assert(n >= 20 + 3 * step, "C14 string attributes are padded to 32 bits (UTF-8 byte length)");
+        if (n < 20 + 3 * step) return;
+        vp_assert(be16(e, 20) == 0x0014 && be16(e, 22) == bytes, "C14 REALM: type and UTF-8 length at offset 20");
+        vp_assert(be16(e, 20 + step) == 0x8022 && be16(e, 22 + step) == bytes, "C14 SOFTWARE starts on the 32-bit boundary after REALM");
+        vp_assert(be16(e, 20 + 2 * step) == 0x0006 && be16(e, 22 + 2 * step) == bytes, "C14 USERNAME starts on the 32-bit boundary after SOFTWARE");
+    }
+    if (n % 4 != 0 || be16(e, 2) != n - 20) return;      // already reported above; decoding a mis-framed message is not the round-trip claim
     // RFC 5389 values of MESSAGE-INTEGRITY / FINGERPRINT (positions are concrete: they are the last attributes)
     unsigned end = n;
     if (fp) {
